@@ -47,12 +47,13 @@ PSet(s)   == [s EXCEPT !.st = St("Stopped", s.tmp), !.chan = Append(@, StateEv(s
 (* stepOut: "StepOutReadsTopOfStack" in dev = the return address is taken from the top of the stack (DbgCpu!StepOutImpl); *)
 (* without it = nested calls are counted until the rts of the current subroutine has run (outside any subroutine: to the  *)
 (* end of the test, which the property leaves open).                                                                      *)
-StepOutRun(R, j, dev) == IF "StepOutReadsTopOfStack" \in dev THEN StepOutImpl(R, j)
+StepOutRun(prog, R, j, dev) == IF "StepOutReadsTopOfStack" \in dev THEN StepOutImpl(R, j)
+                         ELSE IF "StepOutComparesStackDepth" \in dev /\ Depth(R[j]) > 0 THEN StepOutBySp(prog, R, j)     \* hypothetical (seed C19-5)
                          ELSE IF Depth(R[j]) = 0 THEN Len(R) ELSE StepOutT(R, j)
 StepImpl(prog, R, kind, j, dev) == CASE kind = "stepIn" -> Succ(R, j)
                                 [] kind = "next" -> IF "NextIgnoresCallDepth" \in dev THEN NextImpl(prog, R, j)   \* waits for pc0 + 3 only
                                                     ELSE NextT(prog, R, j)                                   \* step in, then out: call depth counts
-                                [] kind = "stepOut" -> StepOutRun(R, j, dev)
+                                [] kind = "stepOut" -> StepOutRun(prog, R, j, dev)
 SExec(prog, R, s, kind, dev) == [s EXCEPT !.ix = StepImpl(prog, R, kind, s.ix, dev), !.sp = "pread", !.kind = kind]
 SetBps(s, B) == [s EXCEPT !.bps = B]
 (* a step taken where the uninterrupted run ends (brk, failing assertion) ends the test: Message + Disconnected, no pause.  *)
